@@ -91,10 +91,13 @@ pub fn run_prompt(args: Vec<String>) {
                     }
                 };
 
+                // a line the compiler rejects must leave the definitions made so
+                // far as they were: keep a copy of the symbol table to go back to
+                let saved_symtab = symtab.clone();
                 let mut compiler = Compiler::new_with_state(symtab, constants);
                 if let Err(e) = compiler.compile(program) {
                     eprintln!("{}", e);
-                    symtab = compiler.symtab;
+                    symtab = saved_symtab;
                     constants = compiler.constants;
                     continue;
                 }
